@@ -110,27 +110,34 @@ theorem gnSelsTop_tr (hd : ∀ n x, down (T.node n) x = down n x) (sels : List S
   rw [← gnSels_eq_flatMap]
   exact gnSels_tr T down hd sels x
 
-theorem gnVarDef_trP (v : VarDef) (x : X) : (gnVarDef down x v).map (trP T) = gnVarDef down x v := by
-  rw [gnVarDef, List.map_cons, List.map_append]
+theorem gnVarDef_tr (hd : ∀ n x, down (T.node n) x = down n x) (v : VarDef) (x : X) :
+    (gnVarDef down x (T.varDef v)).Perm ((gnVarDef down x v).map (trP T)) := by
+  have e : down (.varDef (T.varDef v)) x = down (.varDef v) x := hd (.varDef v) x
+  simp only [gnVarDef, List.map_cons, List.map_append, e]
+  refine List.Perm.cons _ (List.Perm.append ?_ (List.Perm.cons _ (gnDirs_tr T down hd v.dirs _)))
+  show (match v.default with | some dv => gnValue down (down (.varDef v) x) dv | none => []).Perm _
   cases v.default with
-  | none => rfl
-  | some dv => simp only [gnValue_trP]; rfl
+  | none => exact List.Perm.refl _
+  | some dv => simp only [gnValue_trP]; exact List.Perm.refl _
 
-theorem gnVarDefs_trP (vars : List VarDef) (x : X) :
-    (vars.flatMap (gnVarDef down x)).map (trP T) = vars.flatMap (gnVarDef down x) := by
+theorem gnVarDefs_tr (hd : ∀ n x, down (T.node n) x = down n x) (vars : List VarDef) (x : X) :
+    ((vars.map T.varDef).flatMap (gnVarDef down x)).Perm ((vars.flatMap (gnVarDef down x)).map (trP T)) := by
   induction vars with
-  | nil => rfl
-  | cons v vs ih => simp only [List.flatMap_cons, List.map_append, gnVarDef_trP, ih]
+  | nil => exact List.Perm.refl _
+  | cons v vs ih =>
+    simp only [List.map_cons, List.flatMap_cons, List.map_append]
+    exact (gnVarDef_tr T down hd v x).append ih
 
 theorem gnDef_tr (hd : ∀ n x, down (T.node n) x = down n x) (d : Def) (x : X) : (gnDef down x (T.defn d)).Perm ((gnDef down x d).map (trP T)) := by
   cases d with
   | op k nm vars dirs id sels =>
-    have e : down (.operation k nm vars (dirs.map T.dir) (T.sels (T.selList sels))) x = down (.operation k nm vars dirs sels) x :=
+    have e : down (.operation k nm (vars.map T.varDef) (dirs.map T.dir) (T.sels (T.selList sels))) x =
+        down (.operation k nm vars dirs sels) x :=
       hd (.operation k nm vars dirs sels) x
     have e2 : ∀ y, down (.selectionSet id (T.sels (T.selList sels))) y = down (.selectionSet id sels) y :=
       fun y => hd (.selectionSet id sels) y
-    simp only [Tr.defn, gnDef, List.map_cons, List.map_append, gnVarDefs_trP, e, e2]
-    exact List.Perm.cons _ (((List.Perm.refl _).append (gnDirs_tr T down hd dirs _)).append
+    simp only [Tr.defn, gnDef, List.map_cons, List.map_append, e, e2]
+    exact List.Perm.cons _ (((gnVarDefs_tr T down hd vars _).append (gnDirs_tr T down hd dirs _)).append
       (List.Perm.cons _ (gnSelsTop_tr T down hd sels _)))
   | frag n on dirs id sels =>
     have e : down (.fragmentDef (T.frag n) on (dirs.map T.dir)) x = down (.fragmentDef n on dirs) x :=
